@@ -54,14 +54,24 @@ class CellParser:
 
     def cleanse(self, nested_list):
         # Unescape escaped characters
-        TEMP_CHARACTER = "\1"
         if type(nested_list) is str:
             string = nested_list.strip()
-            string = string.replace(CellParser.ESCAPE_CHARACTER * 2, TEMP_CHARACTER)
-            for sep in CellParser.SEPARATORS:
-                string = string.replace(CellParser.ESCAPE_CHARACTER + sep, sep)
-            string = string.replace(TEMP_CHARACTER, CellParser.ESCAPE_CHARACTER)
-            return string
+            escapable = [CellParser.ESCAPE_CHARACTER] + CellParser.SEPARATORS
+            output = []
+            pos = 0
+            while pos < len(string):
+                c = string[pos]
+                if (
+                    c == CellParser.ESCAPE_CHARACTER
+                    and pos + 1 < len(string)
+                    and string[pos + 1] in escapable
+                ):
+                    # Drop the escape character, keep the character it protects
+                    pos += 1
+                    c = string[pos]
+                output.append(c)
+                pos += 1
+            return "".join(output)
         else:
             return [self.cleanse(item) for item in nested_list]
 
